@@ -123,6 +123,15 @@ CLAIMS = {
         'the brecovery binary built from the tree with ASan+UBSan and assertions runs on every generated image (genuine blocks, hostile fields 0..2^64-1, truncations, nested magics, junk) and its output file must equal the model\'s bytes.',
    note=NOTE_COMMON + 'std::ifstream semantics (ignore/read/seekg/tellg/clear after failure) are modelled as list operations and tied by correspondence only; std::sort modelled as stable insertion sort (images hold <= 12 blocks).',
    design='4/C20', technique='Coq proof over a functional model of brecovery (inductive whole-entries predicate, permutation of the sort) + differential execution of the real binary under sanitizers'),
+ 'C08': dict(
+   text='PARTIAL by theorem, completed by execution on real memory images. Theorems (Coq, closed): C08_queue_image_recovers_committed (for EVERY capacity, operation sequence and reads-from history the channel memory, as Session::Channel lays it out, '
+        'is read by the tool as exactly the committed bytes from the released offset to the last commit), C08_recovered_range_is_whole_commits (both ends are commit boundaries), C08_partial_event_invisible (any bytes of an event in flight anywhere in the granted window change nothing), '
+        'C08_metadata_recoverable_in_every_write_state + C08_good_block_recovered (in every memory state of RecoverableVectorOutputStream::write, growth included, a block with its magic set holds exactly the completed entries and is read by the tool); '
+        'built on the C01 invariant and the C20 model of brecovery, instantiated with the growth protocol / single-write / magic facts read off the sources. Not a theorem: that the blocks of a session combine into a printable log, and instants inside several operations at once: '
+        'the real headers run scripted scenarios (sources registered, buffers growing, queues wrapping, writers logging inside consume) and dump all writable mappings at points before/after every atomic access and memcpy of the library; the real brecovery '
+        'must recover every completed event, printable, nothing uncommitted, per-queue order, and equal the model on every image.',
+   note=NOTE_COMMON + 'harness/drv_crash.cpp stand-ins (layout-compatible atomic, memcpy, mutex); points are boundaries of atomic accesses and memcpy calls (not inside memmove); teardown of the session excluded; an image is assumed to show all completed stores.',
+   design='4/C08', technique='Coq proof composing the queue invariant (C01) with the functional model of brecovery (C20) + protocol state enumeration for the metadata buffer; real-process memory images through the real tool as correspondence and oracle'),
 }
 REASON_NOT_BUILT = 'not built yet in this round: no theorem/correspondence for it is registered; not claimed at a lower level by another technique'
 m = {'version': 1, 'setup_cmd': './setup.sh',
